@@ -570,6 +570,33 @@ def _mechanism(sim, culprit, ops):
                         return "packed-refs-examined-while-packer-holds-lock"
                     lock_at = None
         return None
+    if k in ("get", "raw", "has") and name and name != H and \
+            culprit.get("res") in ("KeyError", None, False):
+        # the lock-free read looks at the loose file, then at packed-refs;
+        # between the two looks another process created the loose file (over
+        # the packed entry) and then dropped the packed entry (first half of
+        # a delete): both looks miss a ref that existed throughout
+        path = "repo/.git/" + name
+        for i1, e in enumerate(ev):
+            if not (e[1] == me and e[2] == "open_r" and e[3] == path):
+                continue
+            i2 = next((j for j in range(i1 + 1, len(ev))
+                       if ev[j][1] == me and ev[j][2] == "open_r" and
+                       ev[j][3] == "repo/.git/packed-refs"), None)
+            if i2 is None:
+                continue
+            created = [j for j in range(i1 + 1, i2)
+                       if ev[j][1] != me and ev[j][2] == "replace" and
+                       ev[j][3] == path + ".lock"]
+            dropped = [j for j in range(i1 + 1, i2)
+                       if ev[j][1] != me and ev[j][2] == "replace" and
+                       ev[j][3] == "repo/.git/packed-refs.lock"]
+            if created and dropped and min(created) < max(dropped) and \
+                    not any(ev[j][2] == "unlink" and ev[j][3] == path
+                            for j in range(i1 + 1, i2)):
+                return "loose-created-and-packed-entry-dropped-between-" \
+                    "the-two-looks-of-a-read"
+        return None
     if name == H and k in ("get", "has"):
         # a read through HEAD: HEAD followed, re-pointed by someone else, and
         # only then the (old) target read
